@@ -16,10 +16,15 @@ def plan(tier, seed):
                         functions=[(T2, 'DTCWTInverse.forward')], replay=rp('dtcwt_inverse', o_dim=o, ri_dim=r)))
     # skip / include masks: symbolic booleans; every level is stated against the mask-free reference level, so
     # skipping or including a level cannot change any other output, and level j never mentions J (prefix consistency)
-    for J in (1, 2) + ((3,) if dense else ()):
+    for J in (1, 2):
         gs.append(Group('DTCWTForward[J=%d,symbolic skip/include masks]' % J, MD.g_dtcwt_forward, (J, 2, -1, 'symbolic'), level='bounded-in-J',
                         functions=[(T2, 'DTCWTForward.__init__'), (T2, 'DTCWTForward.forward')],
                         replay=rp('dtcwt_forward', skip_hps=[False, True, False][:J], include_scale=[True, False, True][:J])))
+    if dense:
+        # J = 3: the two masks one at a time (both at once is 64 mask values x 64 size cases: more paths than the explorer allows)
+        for mk in ('symbolic-skip', 'symbolic-include'):
+            gs.append(Group('DTCWTForward[J=3,%s mask]' % mk, MD.g_dtcwt_forward, (3, 2, -1, mk), level='bounded-in-J',
+                            functions=[(T2, 'DTCWTForward.forward')], replay=rp('dtcwt_forward', skip_hps=[False, True, False], include_scale=[True, False, True])))
     gs.append(Group('DTCWTForward[J=3]', MD.g_dtcwt_forward, (3, 2, -1, 'default'), level='bounded-in-J'))
     # prefix consistency for EVERY J: with the level-loop invariant the j-th level application and what is stored at index j do not
     # depend on J (J only bounds the loop), for each uniform skip / include setting
